@@ -17,7 +17,7 @@ def key(c):
 def run(rep):
     quick = rep.tier == "quick"
     # 1. model checking: the array store as a state machine (invariants), then the laws on every enumerated case
-    sm = tlc.run(rep.pid, "C17", SM_CFG, env={"TIER": rep.tier}, timeout=900, tag="sm")
+    sm = tlc.run(rep.pid, "C17", SM_CFG, env={"TIER": rep.tier}, timeout=1800, tag="sm", heap="4g")
     rep.add_tlc("C17.ArrayStateMachine", sm)
     res = tlc.run(rep.pid, "C17", ENUM_CFG, env={"TIER": rep.tier}, timeout=2400, tag="enum", heap="6g")
     rep.add_tlc("C17.Enum+Laws", res)
